@@ -483,6 +483,11 @@ func (c *LNClient) OutgoingPaymentStatus(ctx context.Context, hash string) (ligh
 				if p.Truth != ptSucceeded {
 					p.Truth = ptFailed
 				}
+			case "notfound":
+				// the backend says no such payment exists: then none is in flight
+				if p.Truth == ptInflight {
+					p.Truth = ptNone
+				}
 			}
 		}
 	} else {
